@@ -1,5 +1,6 @@
 import MuduoVerif.Proofs.LoopOwner
 import MuduoVerif.Proofs.Pool
+import MuduoVerif.Proofs.ThreadSkelTie
 /-!
 # C05 — quit() always ends the loop; loop threads and pools start, serve, join cleanly
 
@@ -297,5 +298,37 @@ example :
     getLoopForHash (afterNext (start 3) 5) 4 = .worker 1 ∧ nextSeq (start 0) 2 = [.base, .base] ∧
     getAllLoops (start 0) = [.base] := by
   decide
+
+end MuduoVerif.C05
+
+namespace MuduoVerif.C05
+
+/-- **thread_start_join_tied**: the two places where `Model/Loop.lean` relies on `muduo::Thread` -
+`EventLoopThread::startLoop` calls `thread_.start()` and then finds a thread that exists and runs `threadFunc`
+(`stepIdle .startLoop`: `phase := .born`; `startLoop_owned`, `startLoop_terminates`), and `~EventLoopThread` waits in
+`thread_.join()` exactly until that function has returned (`stepDJoin`: enabled iff `phase == .dead`;
+`join_terminates`, `clean_shutdown`) - are what `Thread.cc` does: `start` = assert not started; `started_ = true`; a
+fresh `ThreadData(func_, name_, &tid_, &latch_)`; `pthread_create(&pthreadId_, NULL, &startThread, data)`; on failure
+`started_ = false`, `delete data`, `LOG_SYSFATAL` (abort), otherwise `latch_.wait()` and `assert(tid_ > 0)`;
+`startThread` = `runInThread()`, `delete data`; `runInThread` publishes the tid, counts the latch down, and only THEN
+calls the function (an exception ends the process); `join` = assert started, assert not joined, `joined_ = true`,
+`pthread_join(pthreadId_, NULL)`; `~Thread` detaches only a started and never joined thread.  Statement skeletons
+re-extracted from /repo on every run (`Generated/ThreadSkel.lean`), equal to `Model/ThreadSkelDecl.lean`.  The latch
+the hand-shake uses and the mutex / condition under it are tied by `C14.primitives_tied`. -/
+theorem thread_start_join_tied :
+    Gen.ThreadSkel.threadCtor = ThreadSkel.Decl.threadCtor ∧
+    Gen.ThreadSkel.setDefaultName = ThreadSkel.Decl.setDefaultName ∧
+    Gen.ThreadSkel.threadStart = ThreadSkel.Decl.threadStart ∧
+    Gen.ThreadSkel.threadDataCtor = ThreadSkel.Decl.threadDataCtor ∧
+    Gen.ThreadSkel.startThread = ThreadSkel.Decl.startThread ∧
+    Gen.ThreadSkel.runInThread = ThreadSkel.Decl.runInThread ∧
+    Gen.ThreadSkel.threadJoin = ThreadSkel.Decl.threadJoin ∧
+    Gen.ThreadSkel.threadDtor = ThreadSkel.Decl.threadDtor ∧
+    Gen.ThreadSkel.latchWait = ThreadSkel.Decl.latchWait ∧
+    Gen.ThreadSkel.latchCountDown = ThreadSkel.Decl.latchCountDown :=
+  ⟨ThreadSkel.skeleton_threadCtor, ThreadSkel.skeleton_setDefaultName, ThreadSkel.skeleton_threadStart,
+   ThreadSkel.skeleton_threadDataCtor, ThreadSkel.skeleton_startThread, ThreadSkel.skeleton_runInThread,
+   ThreadSkel.skeleton_threadJoin, ThreadSkel.skeleton_threadDtor, ThreadSkel.skeleton_latchWait,
+   ThreadSkel.skeleton_latchCountDown⟩
 
 end MuduoVerif.C05
